@@ -2,6 +2,7 @@ import Zlink.Model.Wire
 import Zlink.Model.DriverRx
 import Zlink.Spec.Server
 import Zlink.Model.ServerWake
+import Zlink.Model.ServerMid
 /-! Driver glue for the `srv*` scenarios. -/
 namespace DriverSrv
 open Wire Rx Srv
@@ -102,35 +103,14 @@ def creditFor (es : List String) (i : Nat) : Nat :=
       | _ => acc
     | _ => acc) 0
 
-/-- an arrival in the middle of a poll: when client `a`'s reply stream has handed over `k` results, `bytes` arrive for `b` -/
-structure Trig where
-  a : Nat
-  k : Nat
-  b : Nat
-  bytes : List Rx.Byte
-
-def parseTrig (t : String) : Option Trig :=
+def parseTrig (t : String) : Option Srv.Trig :=
   match (t.drop 1).toString.splitOn ":" with
   | [a, k, b, bytes] => some { a := a.toNat!, k := k.toNat!, b := b.toNat!, bytes := decBytes bytes }
   | _ => none
 
-/-- one poll of the server, iteration by iteration, with the arrivals that are due after each iteration -/
-partial def pollTrig (C : Rx.Consts) (sizes : Nat → Nat) (trigs : List Trig) (s : Srv.S) (fuel : Nat) : Srv.S × List Trig :=
-  if fuel = 0 then (s, trigs) else
-  match iter C sizes s with
-  | none => (s, trigs)
-  | some s' =>
-    let usedOf (a : Nat) : Nat := match s'.all.find? (·.id == a) with | some c => c.used | none => 0
-    let due := trigs.filter fun (t : Trig) => Nat.ble t.k (usedOf t.a)
-    let rest := trigs.filter fun (t : Trig) => !Nat.ble t.k (usedOf t.a)
-    let s'' := due.foldl (fun s t => step C sizes s (.arrive t.b t.bytes)) s'
-    pollTrig C sizes rest s'' (fuel - 1)
-
-def runTrig (C : Rx.Consts) (sizes : Nat → Nat) (trigs : List Trig) (evs : List Srv.Ev) : Srv.S :=
-  (evs.foldl (fun (st : Srv.S × List Trig) ev =>
-    match ev with
-    | .run _ => pollTrig C sizes st.2 st.1 100000
-    | ev => (step C sizes st.1 ev, st.2)) (Srv.init, trigs)).1
+/-- a run with arrivals in the middle of polls (`Srv.runMid`; `Srv.runMid_is_run`: it is `runEvs` of an ordinary event list) -/
+def runTrig (C : Rx.Consts) (sizes : Nat → Nat) (trigs : List Srv.Trig) (evs : List Srv.Ev) : Srv.S :=
+  (runMid C sizes (evs.map fun ev => match ev with | .run _ => .run 100000 | ev => ev) (Srv.init, trigs)).1
 
 def handle (ts : List String) : String :=
   let (_, r0) := splitAt "D" ts
